@@ -5,6 +5,7 @@ are resolved modulo the size of the candidate set at execution time, so any subs
 history is itself an executable history (needed for ddmin and replay).
 """
 import math
+import os
 import random
 
 from . import bswriter
@@ -82,6 +83,9 @@ def gen_config(rng, profile):
         "focus": rng.choice([None, None, "electrostatic_potential", "import", "eval", "integral", "update", "screen"]),
         "p_reissue": rng.choice([0.0, 0.4, 0.8]),
         "p_big": rng.choice([0.0, 0.0, 0.0, 0.3]),
+        # thorough tier only: now and then one electron-repulsion call on a d shell with four primitives (seconds per
+        # call; reaches the large-block paths of the two-electron kernel)
+        "p_heavy": 0.003 if os.environ.get("HISTSIM_TIER") == "thorough" else 0.0,
     }
     return cfg
 
@@ -601,9 +605,13 @@ def g_query(rng, cfg, fn=None):
         keep = "orbs"
     elif fn == "overlap_integral" and rng.random() < 0.2:
         keep = "dm"
+    heavy = False
+    if cfg.get("p_heavy") and rng.random() < cfg["p_heavy"]:
+        fn, heavy, tr = "electron_repulsion_integral", True, None
     op = {
         "op": "query",
         "fn": fn,
+        "heavy": heavy,
         "big": rng.random() < cfg.get("p_big", 0.0),
         "d": [rng.randrange(D) for _ in range(12)],
         "seed": rng.randrange(D),
@@ -617,6 +625,9 @@ def g_query(rng, cfg, fn=None):
                                           and rng.random() < 0.3))
         op["fault"] = g_fault(rng, cfg)
         op["invalid"] = g_invalid(rng, cfg)
+    if heavy:
+        op["keep"] = None
+        op["env"] = op["fault"] = op["invalid"] = None
     return op
 
 
